@@ -211,12 +211,12 @@ func nameIsUsable(s string) bool {
 
 // Spec is one generated store: the options handed to NewBtree, rendered canonically.
 type Spec struct {
-	Name        string
-	NameClass   string
-	DescClass   string
-	Opts        sop.StoreOptions // CacheConfig is copied on every use (NewStoreInfo mutates it)
-	CacheClass  string
-	TooLong     bool
+	Name       string
+	NameClass  string
+	DescClass  string
+	Opts       sop.StoreOptions // CacheConfig is copied on every use (NewStoreInfo mutates it)
+	CacheClass string
+	TooLong    bool
 }
 
 func (s Spec) options(dir string) sop.StoreOptions {
